@@ -122,11 +122,14 @@ Fixpoint join_sp (ps : list str) : str :=
   | p :: r => p ++ 32%N :: join_sp r
   end.
 
-(* flatten_name_parts (the parts never contain white space, so the trims are the identity) *)
-Definition flatten_parts (ps : list str) : str :=
+(* flatten_name_parts as it was before the repair (the parts never contain white space, so the trims are the identity) *)
+Definition flatten_parts_orig (ps : list str) : str :=
   let s := join_sp ps in
   let n := S (length s) in
   replace_sym n 42 (replace_sym n 43 (replace_sym n 39 (replace_sym n 45 (replace_sym n 47 (replace_sym n 46 s))))).
+
+(* flatten_name_parts now: the normal form of the stored names *)
+Definition flatten_parts (ps : list str) : str := name_new ps.
 
 (* ------------------------------------------------------------------ the longest-prefix loop and the token *)
 
